@@ -22,8 +22,8 @@ func init() {
 		Technique: "goroutine-affinity reachability on a package-local call graph (static calls, interface calls resolved by method sets, bound-method and argument closures; go statements and timer callbacks as roots), explicit-panic census with guard classification, invariant-establishing store/call census, guard presence obligations for RFC 7540 stream rules on go/ssa",
 		Meta: core.Meta{
 			Level:       "other",
-			Explanation: "Decides, for package bfe_http2: (A) goroutine affinity: no function that asserts serveG.Check() is reachable from a non-serve goroutine root (go statements, timer callbacks, the handler-facing API of responseWriter/RequestBody/chunkWriter and the exported timeout/close functions) and no function that asserts serveG.CheckNotOn() is reachable from serverConn.serve without crossing a go statement; every serve-owned field of serverConn and stream is accessed only by functions outside the non-serve-reachable set. (B) explicit-panic census of server.go, flow.go, writesched.go, write.go: every panic site must match a reviewed entry (function + guarding condition); for the state-invariant panics the establishing code is checked: closeStream is called only with a stream taken from sc.streams (lookup, range, serverConn.state) or under a state test, sc.streams is inserted only in processHeaders and deleted only in closeStream together with state=closed, stream.state has only the reviewed writers, every stream registered open gets its body pipe before processHeaders returns success (pipe created exactly when !END_STREAM), stream.endStream (which dereferences the body pipe) is called only for streams known to be open, startFrameWrite is called only from scheduleFrameWrite under !writingFrame and at most once per pass, done channels are buffered, END_STREAM-carrying writers always name their stream, reset flags are set before closeStream, maxFrameSize is never stored as zero, every flow.take is guarded by available(), window-update amounts are positive. (C) presence and placement of RFC 7540 rules: odd stream id, strictly increasing id (both dominating stream creation), the advertised concurrency limit (advMaxStreams is what SETTINGS announces and what curOpenStreams is compared with before the handler starts; curOpenStreams changes only in processHeaders/closeStream), trailers must carry END_STREAM, no duplicate trailers, no pseudo-headers in trailers, DATA is accepted only for a registered stream in state open without trailers, request pseudo-header validation in newWriterAndRequest, connection-specific request headers (connHeaders ⊇ RFC 7540 8.1.2.2, TE) routed to the 400 handler, pseudo-header validation before a MetaHeadersFrame is delivered. Not covered: arbitrary frame sequences and schedules (only the per-function necessary conditions above), implicit run-time panics (nil dereference, index, type assertion) other than the body-pipe dereference of endStream, panics inside handlers, frame parsing (C32), flow-control arithmetic (C33).",
-			RuleText:    "obligations = each function asserting goroutine affinity, each serve-owned field, each explicit panic site, each call/store that establishes a panic's invariant, each RFC rule (guard + placement)",
+			Explanation: "Decides, for package bfe_http2: (A) goroutine affinity: no function that asserts serveG.Check() is reachable from a non-serve goroutine root (go statements, timer callbacks, the handler-facing API of responseWriter/RequestBody/chunkWriter and the exported timeout/close functions) and no function that asserts serveG.CheckNotOn() is reachable from serverConn.serve without crossing a go statement; every serve-owned field of serverConn and stream is accessed only by functions outside the non-serve-reachable set. (B) explicit-panic census of server.go, flow.go, writesched.go, write.go: every panic site must match a reviewed entry (function + guarding condition); for the state-invariant panics the establishing code is checked: closeStream is called only with a stream taken from sc.streams (lookup, range, serverConn.state) or under a state test, sc.streams is inserted only in processHeaders and deleted only in closeStream together with state=closed, stream.state has only the reviewed writers, every stream registered open gets its body pipe before processHeaders returns success (pipe assigned only under !END_STREAM, and conversely every path of newWriterAndRequest that established !END_STREAM reaches a successful return only through a non-nil pipe assignment, whatever the request's attributes such as content-length), sc.curOpenStreams moves in lockstep with sc.streams on every path of every function (an inserted stream is counted before any return, including error returns that the caller answers with resetStream -> closeStream; delete and decrement always come together), stream.endStream (which dereferences the body pipe) is called only for streams known to be open, startFrameWrite is called only from scheduleFrameWrite under !writingFrame and at most once per pass, done channels are buffered, END_STREAM-carrying writers always name their stream, reset flags are set before closeStream, maxFrameSize is never stored as zero, every flow.take is guarded by available(), window-update amounts are positive. (C) presence and placement of RFC 7540 rules: odd stream id, strictly increasing id (both dominating stream creation), the advertised concurrency limit (advMaxStreams is what SETTINGS announces and what curOpenStreams is compared with before the handler starts; curOpenStreams changes only in processHeaders/closeStream), trailers must carry END_STREAM, no duplicate trailers, no pseudo-headers in trailers, DATA is accepted only for a registered stream in state open without trailers, request pseudo-header validation in newWriterAndRequest, connection-specific request headers (connHeaders ⊇ RFC 7540 8.1.2.2, TE) routed to the 400 handler, pseudo-header validation before a MetaHeadersFrame is delivered. Not covered: arbitrary frame sequences and schedules (only the per-function necessary conditions above), implicit run-time panics (nil dereference, index, type assertion) other than the body-pipe dereference of endStream, panics inside handlers, frame parsing (C32), flow-control arithmetic (C33).",
+			RuleText:    "obligations = each function asserting goroutine affinity, each serve-owned field, each explicit panic site, each call/store that establishes a panic's invariant, each branch on END_STREAM in newWriterAndRequest, each insertion/removal/count step of the open-stream bookkeeping, each RFC rule (guard + placement)",
 			Assumptions: []string{"the handler-facing API is the method sets of responseWriter, RequestBody and chunkWriter plus the exported functions taking a *RequestBody / io.ReadCloser", "callbacks passed to time.AfterFunc run on their own goroutine; the function passed to Pipe.CloseWithErrorAndCode runs in the body reader's goroutine"},
 		},
 		Run:     runC35,
@@ -50,6 +50,13 @@ var c35Mutants = []Mutant{
 	{Name: "head-with-body-accepted", File: "bfe_http2/server.go", Old: "	if method == \"HEAD\" && bodyOpen {\n		// HEAD requests can't have bodies\n		errMsg := \"HEAD request with unexpected body\"\n		return nil, nil, StreamError{f.StreamID, ErrCodeProtocol, errMsg}\n	}\n", New: "", Expect: "rfc|serverConn.newWriterAndRequest:head-without-body"},
 	{Name: "close-stream-on-unchecked-stream", File: "bfe_http2/server.go", Old: "		case stateHalfClosedRemote:\n			sc.closeStream(st, errHandlerComplete)\n", New: "		default:\n			sc.closeStream(st, errHandlerComplete)\n", Expect: "inv-close-stream|serverConn.wroteFrame:closeStream(errHandlerComplete)"},
 	{Name: "max-frame-size-unvalidated", File: "bfe_http2/server.go", Old: "	if err := s.Valid(); err != nil {\n		return err\n	}\n	log.Logger.Debug(\"http2: server processing setting %v\", s)", New: "	log.Logger.Debug(\"http2: server processing setting %v\", s)", Expect: "inv-max-frame-size"},
+	{Name: "open-stream-pipe-skipped-for-connect", File: "bfe_http2/server.go", Old: "	if bodyOpen {\n		if st.defaultStreamWindow() {\n			body.pipe = pipe.NewPipeFromBufferPool(&fixBufferPool)\n		} else {\n			body.pipe = pipe.NewPipeWithSize(st.isw)\n		}\n", New: "	if bodyOpen {\n		if isConnect {\n			// tunnels read the body lazily\n		} else if st.defaultStreamWindow() {\n			body.pipe = pipe.NewPipeFromBufferPool(&fixBufferPool)\n		} else {\n			body.pipe = pipe.NewPipeWithSize(st.isw)\n		}\n", Expect: "inv-open-pipe-total|serverConn.newWriterAndRequest:open-branch"},
+	{Name: "open-stream-pipe-only-with-declared-length", File: "bfe_http2/server.go", Old: "	if bodyOpen {\n		if st.defaultStreamWindow() {\n", New: "	if bodyOpen && len(header[\"Content-Length\"]) > 0 {\n		if st.defaultStreamWindow() {\n", Expect: "inv-open-pipe-total|serverConn.newWriterAndRequest:open-branch"},
+	{Name: "registered-stream-returns-uncounted", File: "bfe_http2/server.go", Old: "	sc.streams[id] = st\n	if f.HasPriority() {\n", New: "	sc.streams[id] = st\n	if sc.inGoAway {\n		return StreamError{id, ErrCodeRefusedStream, \"going away\"}\n	}\n	if f.HasPriority() {\n", Expect: "inv-open-count|serverConn.processHeaders:register-counted"},
+	{Name: "validation-before-counting", File: "bfe_http2/server.go", Old: "	sc.curOpenStreams++\n	if sc.curOpenStreams == 1 {\n		sc.setConnState(http.StateActive)\n	}\n", New: "	if f.PseudoValue(\"method\") == \"\" {\n		return StreamError{id, ErrCodeProtocol, \"no method\"}\n	}\n	sc.curOpenStreams++\n	if sc.curOpenStreams == 1 {\n		sc.setConnState(http.StateActive)\n	}\n", Expect: "inv-open-count|serverConn.processHeaders:register-counted"},
+	{Name: "close-uncounts-conditionally", File: "bfe_http2/server.go", Old: "	st.state = stateClosed\n	sc.curOpenStreams--\n", New: "	st.state = stateClosed\n	if !st.sentReset {\n		sc.curOpenStreams--\n	}\n", Expect: "inv-open-count|serverConn.closeStream:unregister-uncounted"},
+	{Name: "silent-count-before-priority", File: "bfe_http2/server.go", Old: "	if f.HasPriority() {\n		adjustStreamPriority(sc.streams, st.id, f.Priority)\n	}\n	sc.curOpenStreams++\n", New: "	sc.curOpenStreams++\n	if f.HasPriority() {\n		adjustStreamPriority(sc.streams, st.id, f.Priority)\n	}\n", Silent: true},
+	{Name: "silent-content-length-before-pipe", File: "bfe_http2/server.go", Old: "	if bodyOpen {\n		if st.defaultStreamWindow() {\n			body.pipe = pipe.NewPipeFromBufferPool(&fixBufferPool)\n		} else {\n			body.pipe = pipe.NewPipeWithSize(st.isw)\n		}\n		if vv, ok := header[\"Content-Length\"]; ok {\n			req.ContentLength, _ = strconv.ParseInt(vv[0], 10, 64)\n		} else {\n			req.ContentLength = -1\n		}\n	}\n", New: "	if bodyOpen {\n		if vv, ok := header[\"Content-Length\"]; ok {\n			req.ContentLength, _ = strconv.ParseInt(vv[0], 10, 64)\n		} else {\n			req.ContentLength = -1\n		}\n		if st.defaultStreamWindow() {\n			body.pipe = pipe.NewPipeFromBufferPool(&fixBufferPool)\n		} else {\n			body.pipe = pipe.NewPipeWithSize(st.isw)\n		}\n	}\n", Silent: true},
 	{Name: "silent-odd-test-rewritten", File: "bfe_http2/server.go", Old: "	if id%2 != 1 {\n", New: "	if id%2 == 0 {\n", Silent: true},
 	{Name: "silent-limit-in-local", File: "bfe_http2/server.go", Old: "	if sc.curOpenStreams > sc.advMaxStreams {\n", New: "	limit := sc.advMaxStreams\n	if sc.curOpenStreams > limit {\n", Silent: true},
 	{Name: "silent-close-order", File: "bfe_http2/server.go", Old: "	st.cw.Close() // signals Handler's CloseNotifier, unblocks writes, etc\n	sc.writeSched.forgetStream(st.id)\n", New: "	sc.writeSched.forgetStream(st.id)\n	st.cw.Close() // signals Handler's CloseNotifier, unblocks writes, etc\n", Silent: true},
@@ -217,6 +224,8 @@ func runC35(c *core.Ctx) {
 	c35Affinity(c, e)
 	c35Panics(c, e)
 	c35Invariants(c, e)
+	c35OpenPipeTotal(c, e)
+	c35OpenCount(c, e)
 	c35RFC(c, e)
 }
 
@@ -1574,4 +1583,194 @@ func c35RFC(c *core.Ctx, e *h2bEnv) {
 		}
 	}
 	c.Min("rfc", 30)
+}
+
+// ---- (B3) totality of the invariants: every path, not only the reviewed stores -----
+
+// c35OpenPipeTotal: `state open <=> body pipe present` needs both directions.
+// inv-open-has-body checks that RequestBody.pipe is assigned only under
+// !f.StreamEnded(); this rule checks the converse in newWriterAndRequest: once
+// a branch has established !f.StreamEnded() (the stream stays open for DATA and
+// trailers), every path that goes on to a successful return assigns a non-nil
+// pipe. The traversal is consistent in the flag (later tests of the same
+// StreamEnded() value are followed only along the !END_STREAM edge). A request
+// attribute such as content-length: 0 must not decide whether the pipe exists:
+// processData and stream.endStream rely on it for every open stream.
+func c35OpenPipeTotal(c *core.Ctx, e *h2bEnv) {
+	newWR := e.fn("serverConn.newWriterAndRequest")
+	pipeF := e.field("RequestBody.pipe")
+	if newWR == nil || pipeF == nil {
+		return
+	}
+	flagOf := func(cond ssa.Value) (*ssa.Call, bool, bool) {
+		pol := true
+		for {
+			u, ok := cond.(*ssa.UnOp)
+			if !ok || u.Op != token.NOT {
+				break
+			}
+			cond, pol = u.X, !pol
+		}
+		if call, ok := h2bIsCall(cond, "HeadersFrame.StreamEnded"); ok {
+			return call, pol, true
+		}
+		return nil, false, false
+	}
+	isPipeStore := func(in ssa.Instruction) bool {
+		st, ok := in.(*ssa.Store)
+		if !ok {
+			return false
+		}
+		_, is := h2bStoreField(st, pipeF)
+		return is && !h2bIsNil(st.Val)
+	}
+	n, stored := 0, 0
+	for _, ifi := range h2bIfs(newWR) {
+		b := ifi.Block()
+		flag, pol, ok := flagOf(ifi.Cond)
+		if !ok || b.Succs[0] == b.Succs[1] {
+			continue
+		}
+		open := b.Succs[0]
+		if pol {
+			open = b.Succs[1]
+		}
+		n++
+		var bad ssa.Instruction
+		seen := map[*ssa.BasicBlock]bool{open: true}
+		work := []*ssa.BasicBlock{open}
+		for len(work) > 0 {
+			cur := work[len(work)-1]
+			work = work[:len(work)-1]
+			stop := false
+			for _, in := range cur.Instrs {
+				if isPipeStore(in) {
+					stored++
+					stop = true
+					break
+				}
+				if r, isR := in.(*ssa.Return); isR && h2bIsNil(c35ErrResult(r)) {
+					if bad == nil {
+						bad = in
+					}
+					stop = true
+					break
+				}
+			}
+			if stop {
+				continue
+			}
+			succs := cur.Succs
+			if i2 := h2bIfOf(cur); i2 != nil && len(succs) == 2 {
+				if f2, pol2, ok2 := flagOf(i2.Cond); ok2 && h2bEq(f2, flag) {
+					if pol2 {
+						succs = succs[1:]
+					} else {
+						succs = succs[:1]
+					}
+				}
+			}
+			for _, sx := range succs {
+				if !seen[sx] {
+					seen[sx] = true
+					work = append(work, sx)
+				}
+			}
+		}
+		where := ""
+		if bad != nil {
+			where = "; the success return at " + c.P.Pos(h2bPos(bad)) + " is reachable from the !StreamEnded() branch avoiding every store to RequestBody.pipe"
+		}
+		c.Check("inv-open-pipe-total", fmt.Sprintf("serverConn.newWriterAndRequest:open-branch#%d", n), h2bPos(ifi), bad == nil,
+			"newWriterAndRequest can return success for a HEADERS frame without END_STREAM (stream stays in state open) without having created the request body pipe: the next DATA frame reaches panic(\"internal error: should have a body in this state\") in processData and a trailers HEADERS frame dereferences the nil pipe in stream.endStream"+where)
+	}
+	c.Check("inv-open-pipe-total", "serverConn.newWriterAndRequest:some-open-path-creates-pipe", newWR.Pos(), stored > 0,
+		"no branch on !f.StreamEnded() in newWriterAndRequest leads to a store of RequestBody.pipe: the rule cannot tie the pipe to the stream staying open")
+	c.Min("inv-open-pipe-total", 2)
+}
+
+// c35OpenCount: sc.curOpenStreams == len(sc.streams) is what makes the
+// concurrency limit and the idle/active transitions meaningful; closeStream
+// decrements for every registered stream it removes. Lockstep on every path,
+// in every function of the package: a stream inserted into sc.streams is
+// counted before the function can return (also on its error returns: the
+// caller answers a StreamError with resetStream -> closeStream, which
+// decrements), and a removal from sc.streams and the decrement always come
+// together.
+func c35OpenCount(c *core.Ctx, e *h2bEnv) {
+	streamsF, curF := e.field("serverConn.streams"), e.field("serverConn.curOpenStreams")
+	if streamsF == nil || curF == nil {
+		return
+	}
+	isStreams := c35Load(streamsF)
+	step := func(in ssa.Instruction, op token.Token) bool {
+		st, ok := in.(*ssa.Store)
+		if !ok {
+			return false
+		}
+		if _, is := h2bStoreField(st, curF); !is {
+			return false
+		}
+		b, isB := st.Val.(*ssa.BinOp)
+		if !isB || b.Op != op || !c35Load(curF)(b.X) {
+			return false
+		}
+		k, isK := h2bInt(b.Y)
+		return isK && k == 1
+	}
+	isInc := func(in ssa.Instruction) bool { return step(in, token.ADD) }
+	isDec := func(in ssa.Instruction) bool { return step(in, token.SUB) }
+	isDel := func(in ssa.Instruction) bool {
+		y, ok := in.(*ssa.Call)
+		if !ok {
+			return false
+		}
+		b, isB := y.Call.Value.(*ssa.Builtin)
+		return isB && b.Name() == "delete" && isStreams(y.Call.Args[0])
+	}
+	isReg := func(in ssa.Instruction) bool {
+		mu, ok := in.(*ssa.MapUpdate)
+		return ok && isStreams(mu.Map)
+	}
+	// paired: every execution of `at` is accompanied by a partner, either
+	// before it on every path (dominance) or after it on every path to a return.
+	paired := func(fn *ssa.Function, at ssa.Instruction, partner func(ssa.Instruction) bool) (bool, ssa.Instruction) {
+		for _, in := range h2bAll(fn) {
+			if partner(in) && core.Dominates(in, at) {
+				return true, nil
+			}
+		}
+		bad := core.MustPass(fn, at, partner)
+		return bad == nil, bad
+	}
+	cnt := map[string]int{}
+	for _, fn := range e.fns {
+		for _, in := range h2bAll(fn) {
+			var kind, what string
+			var partner func(ssa.Instruction) bool
+			switch {
+			case isReg(in):
+				kind, partner, what = "register-counted", isInc, "a stream is inserted into sc.streams but a return is reachable without sc.curOpenStreams++: when the caller resets the rejected stream, closeStream decrements a count that was never incremented (the uint32 counter wraps; from then on SETTINGS_MAX_CONCURRENT_STREAMS is enforced one stream too late and the idle/active transitions at 0/1 misfire)"
+			case isDel(in):
+				kind, partner, what = "unregister-uncounted", isDec, "a stream is removed from sc.streams without sc.curOpenStreams-- on every path: the connection over-counts open streams and refuses streams below the advertised limit"
+			case isDec(in):
+				kind, partner, what = "uncount-unregisters", isDel, "sc.curOpenStreams is decremented without the stream being removed from sc.streams on every path: the same stream can be closed (and un-counted) again"
+			case isInc(in):
+				kind, partner, what = "count-registers", isReg, "sc.curOpenStreams is incremented without a stream being inserted into sc.streams on every path"
+			default:
+				continue
+			}
+			k := h2bShort(fn) + ":" + kind
+			cnt[k]++
+			if cnt[k] > 1 {
+				k += fmt.Sprintf("#%d", cnt[k])
+			}
+			ok, bad := paired(fn, in, partner)
+			if bad != nil {
+				what += "; unpaired exit at " + c.P.Pos(h2bPos(bad))
+			}
+			c.Check("inv-open-count", k, h2bPos(in), ok, what)
+		}
+	}
+	c.Min("inv-open-count", 4)
 }
